@@ -187,3 +187,167 @@ def _bp_post_hints(c):
 
 
 BP.post_hints = _bp_post_hints
+
+
+# ---------------------------------------------------------------- keep_only
+from .c_sanitize import wf_top, below, frame_links, Sane    # noqa: E402
+
+
+def wf_after(c, keep):
+    """the tree obtained by restricting the members of self to `keep` is admissible (what sanitize() needs):
+    stated on the entry state with the restricted membership"""
+    st, S = c.pre, c.a.self
+    m, m2, x = q(3)
+    mem = lambda y: And(member(st, S, y), keep(y))
+    return And(
+        is_sched(S),
+        ForAll([m], Implies(mem(m), And(isa['AbstractJob'](m), st.alive(m), m != S, height(m) < height(S),
+                                        height(m) >= 0, Not(under(S, m)),
+                                        Implies(isa['PureScheduler'](m), wf_tree(st, m)))),
+               patterns=[member(st, S, m)]),
+        ForAll([m, x], Implies(And(mem(m), under(x, m)), And(Not(mem(x)), x != S)),
+               patterns=[z3.MultiPattern(member(st, S, m), under(x, m))]),
+        ForAll([m, m2, x], Implies(And(mem(m), mem(m2), m != m2), Not(And(under(x, m), under(x, m2)))),
+               patterns=[z3.MultiPattern(member(st, S, m), under(x, m2))]))
+
+
+c = contract('PureScheduler.keep_only', F).param('self').param('remains', 'set').returns('none')
+c.for_props('C18')
+c.requires('tree-axioms', lambda c: And(tree_axioms()))
+c.requires('admissible-tree', lambda c: wf_after(c, lambda y: c.pre.mem(c.a.remains, y)))
+c.requires('remains-is-not-a-container-of-the-tree', lambda c: c.pre.f('$setrole', c.a.remains) == 0)
+c.requires_schema('acyclic', lambda c, U: acyclic_at(c.pre, c.a.self, U), lambda: (fresh('U', L.SetV),))
+c.modifies('$elems', '$alive', '$setrole')
+
+
+def _ko_members(c):
+    x = q()
+    S = c.a.self
+    return ForAll([x], member(c.cur, S, x) == And(member(c.pre, S, x), c.pre.mem(c.a.remains, x)),
+                  patterns=[member(c.cur, S, x)])
+
+
+def _ko_requirements(c):
+    j, x = q(2)
+    S = c.a.self
+    return ForAll([j, x], Implies(member(c.cur, S, j),
+                                  And(E(c.cur, j, x) == And(E(c.pre, j, x), member(c.cur, S, x)),
+                                      SUCC(c.cur, j, x) == And(SUCC(c.pre, j, x), member(c.cur, S, x)))),
+                  patterns=[E(c.cur, j, x), SUCC(c.cur, j, x)])
+
+
+def _ko_acyclic(c):
+    S = c.a.self
+    if c.mode != 'prove':
+        return z3.BoolVal(True)
+    U1, w1 = _U1(c), _w1(c)
+    c.use_schema('acyclic', U1)
+    return Not(self_supporting(c.cur, S, U1, w1))
+
+
+c.ensures('keeps-exactly-the-members-in-remains', _ko_members, props=['C18'])
+c.ensures('keeps-exactly-the-requirements-among-kept-jobs', _ko_requirements, props=['C18'])
+c.ensures('stays-closed', lambda c: closed(c.cur, c.a.self), props=['C18'])
+c.ensures('stays-acyclic', _ko_acyclic, props=['C18'])
+c.ensures('dropped-jobs-and-the-rest-of-the-heap-untouched', lambda c: (lambda s: ForAll([s], Implies(
+    And(c.pre.alive(s), s != c.pre.f('jobs', c.a.self),
+        Not(And(below(c.cur, c.a.self, c.pre.f('$setowner', s)),
+                Or(c.pre.f('$setrole', s) == 1, c.pre.f('$setrole', s) == 2)))),
+    c.cur.elems(s) == c.pre.elems(s)), patterns=[c.cur.elems(s)]))(q()), props=['C18'])
+
+
+# ---------------------------------------------------------------- keep_only_between
+c = contract('PureScheduler.keep_only_between', F).param('self') \
+    .param('starts', 'kw:set', None).param('ends', 'kw:set', None) \
+    .param('keep_starts', 'kw:bool', True).param('keep_ends', 'kw:bool', True).returns('none')
+c.for_props('C18')
+
+
+def _given(c, name):
+    """the jobs named by the optional parameter `name` (None means none)"""
+    a = c.args[name]
+    return lambda x: And(a != NONE, c.pre.mem(a, x))
+
+
+def _kob_new_members(c, st):
+    """membership after the operation, in terms of the two closure results exported by the callees (or all the
+    members when the corresponding parameter names nothing)"""
+    S = c.a.self
+    g = st.g
+    st_, en_ = _given(c, 'starts'), _given(c, 'ends')
+    has_s = Exists([q()], z3.BoolVal(True))     # placeholder, replaced below
+
+    def pred(x):
+        some_start = (lambda y: Exists([y], st_(y)))(q())
+        some_end = (lambda y: Exists([y], en_(y)))(q())
+        down = st.mem(g['$downstream'], x) if '$downstream' in g else member(c.pre, S, x)
+        up = st.mem(g['$upstream'], x) if '$upstream' in g else member(c.pre, S, x)
+        return Or(And(down, up), And(c.a.keep_starts, st_(x)), And(c.a.keep_ends, en_(x)))
+    return pred
+
+
+c.requires('tree-axioms', lambda c: And(tree_axioms()))
+c.requires('self-is-scheduler', lambda c: is_sched(c.a.self))
+c.requires('closed', lambda c: closed(c.pre, c.a.self))
+c.requires('starts-and-ends-are-members', lambda c: (lambda x: ForAll([x], Implies(
+    Or(_given(c, 'starts')(x), _given(c, 'ends')(x)), member(c.pre, c.a.self, x)),
+    patterns=[member(c.pre, c.a.self, x)]))(q()))
+c.requires('parameters-are-local-sets', lambda c: And(
+    Or(c.a.starts == NONE, And(isa['set'](c.a.starts), c.pre.f('$setrole', c.a.starts) == 0)),
+    Or(c.a.ends == NONE, And(isa['set'](c.a.ends), c.pre.f('$setrole', c.a.ends) == 0))))
+c.requires('admissible-tree', lambda c: wf_top(c.pre, c.a.self))
+c.requires_schema('acyclic', lambda c, U: acyclic_at(c.pre, c.a.self, U), lambda: (fresh('U', L.SetV),))
+c.modifies('$elems', '$alive', '$setrole', '$setowner', '$llen', '$lat', 'jobs', '_s_successors')
+
+
+def _kob_members(c):
+    x = q()
+    S = c.a.self
+    pred = _kob_new_members(c, c.cur)
+    return ForAll([x], member(c.cur, S, x) == pred(x), patterns=[member(c.cur, S, x)])
+
+
+def _kob_subset(c):
+    x = q()
+    S = c.a.self
+    return ForAll([x], Implies(member(c.cur, S, x), member(c.pre, S, x)), patterns=[member(c.cur, S, x)])
+
+
+def _kob_requirements(c):
+    j, x = q(2)
+    S = c.a.self
+    return ForAll([j, x], Implies(member(c.cur, S, j), E(c.cur, j, x) == And(E(c.pre, j, x), member(c.cur, S, x))),
+                  patterns=[E(c.cur, j, x)])
+
+
+c.ensures('keeps-exactly-the-documented-jobs', _kob_members, props=['C18'])
+c.ensures('keeps-only-members', _kob_subset, props=['C18'])
+c.ensures('keeps-exactly-the-requirements-among-kept-jobs', _kob_requirements, props=['C18'])
+c.ensures('stays-closed', lambda c: closed(c.cur, c.a.self), props=['C18'])
+c.ensures('stays-acyclic', _ko_acyclic, props=['C18'])
+c.ensures('member-set-is-a-fresh-object', lambda c: Not(c.pre.alive(c.cur.f('jobs', c.a.self))), props=['C18'])
+
+
+def _kob_post_hints(c):
+    if c.mode != 'prove' or c.exc is not None:
+        return []
+    call = c.cur.g.get('sanitize-call')
+    if call is None:
+        return []
+    mid = call['pre']
+    S = c.a.self
+    x = q()
+    out = [L.Lemma('sanitize-leaves-the-member-set-alone',
+                   ForAll([x], member(c.cur, S, x) == member(mid, S, x), patterns=[member(c.cur, S, x)]))]
+    for key in ('$downstream', '$upstream'):
+        if key in c.cur.g:
+            r = c.cur.g[key]
+            out.append(L.Lemma('closure-result-untouched[%s]' % key[1:],
+                               ForAll([x], c.cur.mem(r, x) == mid.mem(r, x), patterns=[c.cur.mem(r, x)])))
+    pred = _kob_new_members(c, mid)
+    out.append(L.Lemma('members-before-sanitize-are-the-documented-jobs',
+                       ForAll([x], member(mid, S, x) == pred(x), patterns=[member(mid, S, x)])))
+    return out
+
+
+c.post_hints = _kob_post_hints
